@@ -134,6 +134,19 @@ def end_to_end(scope, na, nb):
         top.remove_child(old)
         top.create_child(name=na, reference=leaf)
         top.create_child(name=nb, reference=leaf)
+    elif scope == "inserted-in-front-under-edif":
+        # EDIF-policy netlist: a sibling already identified (as after a read) and a hand-built one whose name sanitises
+        # to that very identifier, inserted in FRONT of it
+        n[".NS"] = "EDIF"
+        old = top.create_child(name=na, reference=leaf)
+        old["EDIF.identifier"] = "".join(ch if ch.isalnum() else "_" for ch in na)
+        x = s.Instance(name=nb)
+        x.reference = leaf
+        top.add_child(x, position=0)
+        oc = top.create_cable(name=na, wires=1)
+        oc["EDIF.identifier"] = "".join(ch if ch.isalnum() else "_" for ch in na)
+        top.add_cable(s.Cable(name=nb), position=0)
+        top.cables[0].create_wire()
     elif scope == "cell-first-library":
         # the colliding cells live in a library that is not the last one written
         prim.create_definition(name=na)
@@ -250,6 +263,8 @@ def cases(tier):
         out.append(("e2e", "cell-first-library", na, nb, "asc"))
     for na, nb in (("U_Buf1", "Clk"), ("Net_A", "net_a2"), ("a-b", "A-B2")):
         out.append(("e2e", "instance-readded-under-edif", na, nb, "asc"))
+    for na, nb in (("a-b", "a+b"), ("q[0]x", "q(0)x"), ("x.y", "X/Y")):
+        out.append(("e2e", "inserted-in-front-under-edif", na, nb, "asc"))
     for nm in e2e_names:
         out.append(("e2e", "top-instance", nm, "b", "asc"))
         out.append(("e2e", "netlist", nm, "b", "asc"))
